@@ -130,6 +130,15 @@ mod tests {
     }
 
     #[test]
+    fn test_iter_with_an_invalid_field() {
+        let attributes = Attributes::new(b"ID=1;Name");
+        let mut iter = attributes.iter();
+        assert!(matches!(iter.next(), Some(Ok(_))));
+        assert!(matches!(iter.next(), Some(Err(_))));
+        assert!(iter.next().is_none());
+    }
+
+    #[test]
     fn test_iter() -> io::Result<()> {
         let attributes = Attributes::new(b"");
         assert!(attributes.iter().next().is_none());
